@@ -519,6 +519,28 @@ def check_conduct(h, f=None):
                              'application did not send (again)' %
                              _short(m[3])))
                 break
+        # what a handler sent (connect handlers greet) travels like any
+        # other send
+        hsends = [e for e in c['events']
+                  if (f.app.action_for(e['ev'], e['n']) or {}).get(
+                      'action') == 'send' and e.get('state') == 'connected']
+        n_arr = sum(1 for m in arrived
+                    if isinstance(m[3], str) and m[3] == 'from-handler')
+        if n_arr > len(hsends):
+            out.append(V('send-delivery', '%s|duplicate-or-spurious-send'
+                         % kind, 'server received %d handler sends, the '
+                         'handlers made %d' % (n_arr, len(hsends))))
+        elif n_arr < len(hsends) and not troubled and not discs and \
+                all(e['t'] + rt + 2.0 < t_end for e in hsends) and \
+                not any(_app_disconnect_soon(f, c, {'seq_start': e['seq'],
+                                                    't_start': e['t']})
+                        for e in hsends):
+            out.append(V('send-delivery', '%s|handler-send-not-delivered|%s'
+                         % (kind, s.transport), '%d send(s) made from '
+                         'handlers (first in the %s handler at t=%.4f) on a '
+                         'healthy connection, %d reached the server' % (
+                             len(hsends), hsends[0]['ev'], hsends[0]['t'],
+                             n_arr)))
         ordered = [p for p in pos]
         if [x[1] for x in ordered] != sorted(x[1] for x in ordered):
             # sends issued on different ticks have a binding order
